@@ -1,23 +1,10 @@
+#include "spec.h"
 /* C18: contracts for ArithUint256 (src/pop/arith_uint256.cpp, include/veriblock/pop/arith_uint256.hpp).
  * The code works on 32 little-endian BYTES; the specifications are written on four 64-bit WORDS (and 128-bit
  * intermediate sums), i.e. in a different representation, so that a byte-level slip cannot be mirrored in the spec.
  * Quantifier-free: "for every byte k" is a ghost parameter k chosen arbitrarily by the harness. */
-#include <stddef.h>
-#include <stdint.h>
-typedef unsigned __int128 u128;
-#define RET __CPROVER_return_value
-#define FRESH32(p) __CPROVER_is_fresh(p, 32)
-#define W(a, j) (*(const uint64_t*)((a) + 8 * (j)))
-#define SELW(a, i) ((i) == 0 ? W(a, 0) : (i) == 1 ? W(a, 1) : (i) == 2 ? W(a, 2) : W(a, 3))
-#define IS_ZERO(a) (W(a, 0) == 0 && W(a, 1) == 0 && W(a, 2) == 0 && W(a, 3) == 0)
 
 /* ---- compact targets: Bitcoin's definition  value = mantissa * 256^(size-3) ---- */
-#define FB_SIZE(b) ((b) >> 24)
-#define FB_MANT(b) ((b)&0x007fffffu)
-#define FB_WORD(b) (FB_SIZE(b) <= 3 ? FB_MANT(b) >> (8 * (3 - FB_SIZE(b))) : FB_MANT(b))
-#define FB_SHIFT(b) (FB_SIZE(b) <= 3 ? 0u : FB_SIZE(b) - 3) /* bytes */
-#define FB_BYTE(b, k) (((k) >= FB_SHIFT(b) && (k)-FB_SHIFT(b) < 3) ? (uint8_t)(FB_WORD(b) >> (8 * ((k)-FB_SHIFT(b)))) : (uint8_t)0)
-#define BYTELEN24(w) ((w) > 0xffff ? 3 : (w) > 0xff ? 2 : (w) > 0 ? 1 : 0)
 
 void w_fromBits_c(uint32_t bits, uint8_t* out, int* neg, int* ovf, unsigned k)
 __CPROVER_requires(FRESH32(out) && __CPROVER_is_fresh(neg, sizeof(int)) && __CPROVER_is_fresh(ovf, sizeof(int)) && k < 32)
@@ -27,13 +14,6 @@ __CPROVER_ensures(*neg == (FB_WORD(bits) != 0 && (bits & 0x00800000u) != 0))
 /* overflow <=> mantissa * 256^(size-3) >= 2^256 <=> bytelen(mantissa) + size - 3 > 32 */
 __CPROVER_ensures(*ovf == (FB_WORD(bits) != 0 && BYTELEN24(FB_WORD(bits)) + FB_SIZE(bits) > 35));
 
-#define BL64(w) ((w) >> 56 ? 8 : (w) >> 48 ? 7 : (w) >> 40 ? 6 : (w) >> 32 ? 5 : (w) >> 24 ? 4 : (w) >> 16 ? 3 : (w) >> 8 ? 2 : (w) ? 1 : 0)
-#define BYTELEN(a) (W(a, 3) ? 24 + BL64(W(a, 3)) : W(a, 2) ? 16 + BL64(W(a, 2)) : W(a, 1) ? 8 + BL64(W(a, 1)) : BL64(W(a, 0)))
-#define TB_M0(a) (BYTELEN(a) <= 3 ? ((uint32_t)W(a, 0)) << (8 * (3 - BYTELEN(a))) \
-                                  : ((uint32_t)(a)[BYTELEN(a) - 1] << 16 | (uint32_t)(a)[BYTELEN(a) - 2] << 8 | (uint32_t)(a)[BYTELEN(a) - 3]))
-#define TB_CARRY(a) ((TB_M0(a) & 0x00800000u) != 0)
-#define TB_M(a) (TB_CARRY(a) ? TB_M0(a) >> 8 : TB_M0(a))
-#define TB_N(a) ((uint32_t)BYTELEN(a) + (TB_CARRY(a) ? 1u : 0u))
 
 uint32_t w_toBits_c(const uint8_t* x, int negative)
 __CPROVER_requires(FRESH32(x))
@@ -41,23 +21,18 @@ __CPROVER_assigns()
 __CPROVER_ensures(RET == (TB_M(x) | (TB_N(x) << 24) | ((negative != 0 && (TB_M(x) & 0x007fffffu) != 0) ? 0x00800000u : 0u)));
 
 /* canonical compact value: what toBits can produce for a non-negative number */
-#define CANON(c) ((c) == 0 || (((c)&0x00800000u) == 0 && (((c) >> 16) & 0x7fu) != 0 && ((c) >> 24) >= 1 && ((c) >> 24) <= 32 && \
-                               (((c) >> 24) != 1 || ((c)&0xffffu) == 0) && (((c) >> 24) != 2 || ((c)&0xffu) == 0)))
 uint32_t w_roundtrip_c(uint32_t c)
 __CPROVER_requires(CANON(c))
 __CPROVER_assigns()
 __CPROVER_ensures(RET == c);
 
 /* decode(encode(x)) keeps exactly the most significant bytes the mantissa can carry (3, or 2 when the top byte has its high bit set) */
-#define KEEP(x) ((BYTELEN(x) > 0 && ((x)[BYTELEN(x) - 1] & 0x80) != 0) ? 2 : 3)
 void w_encdec_c(const uint8_t* x, uint8_t* out, unsigned k)
 __CPROVER_requires(FRESH32(x) && FRESH32(out) && k < 32)
 __CPROVER_assigns(__CPROVER_object_whole(out))
 __CPROVER_ensures(out[k] == ((k + KEEP(x) >= BYTELEN(x) && k < BYTELEN(x)) ? x[k] : 0));
 
 /* ---- comparison: lexicographic from the most significant word ---- */
-#define CMPW(a, b, j, rest) (W(a, j) < W(b, j) ? -1 : W(a, j) > W(b, j) ? 1 : (rest))
-#define CMP256(a, b) CMPW(a, b, 3, CMPW(a, b, 2, CMPW(a, b, 1, CMPW(a, b, 0, 0))))
 int w_compareTo_c(const uint8_t* a, const uint8_t* b)
 __CPROVER_requires(FRESH32(a) && FRESH32(b))
 __CPROVER_assigns()
@@ -69,10 +44,6 @@ __CPROVER_assigns()
 __CPROVER_ensures(RET == ((CMP256(a, b) > 0 ? 1 : 0) | (CMP256(a, b) < 0 ? 2 : 0) | (CMP256(a, b) >= 0 ? 4 : 0) | (CMP256(a, b) <= 0 ? 8 : 0)));
 
 /* ---- shifts: funnel shift on words, every 32-bit shift amount ---- */
-#define SHL_W(a, s, j) ((((s) < 256 && (j) >= (s) / 64) ? SELW(a, (j) - (s) / 64) << ((s) % 64) : 0) | \
-                        (((s) < 256 && (s) % 64 != 0 && (j) >= (s) / 64 + 1) ? SELW(a, (j) - (s) / 64 - 1) >> (64 - (s) % 64) : 0))
-#define SHR_W(a, s, j) ((((s) < 256 && (j) + (s) / 64 <= 3) ? SELW(a, (j) + (s) / 64) >> ((s) % 64) : 0) | \
-                        (((s) < 256 && (s) % 64 != 0 && (j) + (s) / 64 + 1 <= 3) ? SELW(a, (j) + (s) / 64 + 1) << (64 - (s) % 64) : 0))
 void w_shl_c(const uint8_t* a, unsigned s, uint8_t* out)
 __CPROVER_requires(FRESH32(a) && FRESH32(out))
 __CPROVER_assigns(__CPROVER_object_whole(out))
@@ -83,16 +54,7 @@ __CPROVER_assigns(__CPROVER_object_whole(out))
 __CPROVER_ensures(W(out, 0) == SHR_W(a, s, 0) && W(out, 1) == SHR_W(a, s, 1) && W(out, 2) == SHR_W(a, s, 2) && W(out, 3) == SHR_W(a, s, 3));
 
 /* ---- addition modulo 2^256 on words with 128-bit intermediate sums ---- */
-#define S0(a0, b0) ((u128)(a0) + (b0))
-#define S1(a0, a1, b0, b1) ((u128)(a1) + (b1) + (S0(a0, b0) >> 64))
-#define S2(a0, a1, a2, b0, b1, b2) ((u128)(a2) + (b2) + (S1(a0, a1, b0, b1) >> 64))
-#define S3(a0, a1, a2, a3, b0, b1, b2, b3) ((u128)(a3) + (b3) + (S2(a0, a1, a2, b0, b1, b2) >> 64))
 /* o == a + b (mod 2^256), b given by words */
-#define IS_SUMW(o, a, b0, b1, b2, b3)                                                                            \
-  (W(o, 0) == (uint64_t)S0(W(a, 0), b0) && W(o, 1) == (uint64_t)S1(W(a, 0), W(a, 1), b0, b1) &&                  \
-   W(o, 2) == (uint64_t)S2(W(a, 0), W(a, 1), W(a, 2), b0, b1, b2) &&                                             \
-   W(o, 3) == (uint64_t)S3(W(a, 0), W(a, 1), W(a, 2), W(a, 3), b0, b1, b2, b3))
-#define IS_SUM(o, a, b) IS_SUMW(o, a, W(b, 0), W(b, 1), W(b, 2), W(b, 3))
 
 void w_add_c(const uint8_t* a, const uint8_t* b, uint8_t* out)
 __CPROVER_requires(FRESH32(a) && FRESH32(b) && FRESH32(out))
@@ -151,18 +113,6 @@ __CPROVER_ensures(RET == W(a, 0));
  * operands (DESIGN section 2), so the functional contracts are BOUNDED stand-ins: operands below 2^OPBITS, result compared with
  * native 64/128-bit arithmetic. Full-width operands get the algebraic facts that are cheap (annihilation, ordering) plus all
  * memory-safety / overflow obligations. */
-#ifndef OPBITS
-#define OPBITS 16
-#endif
-#if OPBITS == 8
-typedef uint8_t opnd_t;
-#elif OPBITS == 16
-typedef uint16_t opnd_t;
-#elif OPBITS == 32
-typedef uint32_t opnd_t;
-#else
-typedef uint64_t opnd_t;
-#endif
 void w_mul32_small_c(opnd_t a, opnd_t b, uint8_t* out)
 __CPROVER_requires(FRESH32(out))
 __CPROVER_assigns(__CPROVER_object_whole(out))
